@@ -17,7 +17,7 @@ CVC5 = "/usr/bin/cvc5"
 
 
 class Obligation:
-    __slots__ = ("name", "pc", "clause", "status", "model", "backend", "secs", "path", "kind", "note")
+    __slots__ = ("name", "pc", "clause", "status", "model", "backend", "secs", "path", "kind", "note", "generalize")
 
     def __init__(self, name, pc, clause, path, kind="ensures"):
         self.name = name
@@ -30,6 +30,7 @@ class Obligation:
         self.path = path
         self.kind = kind
         self.note = ""
+        self.generalize = None
 
 
 def run_cvc5(smt2: str, timeout_s: int):
@@ -212,12 +213,14 @@ class Ctx:
         return r == z3.unsat
 
     # ---------------------------------------------------------------- obligations
-    def oblige(self, name, clause, kind="ensures"):
+    def oblige(self, name, clause, kind="ensures", generalize=None):
         if isinstance(clause, SV):
             clause = clause.t
         if isinstance(clause, bool):
             clause = z3.BoolVal(clause)
         ob = Obligation(name, list(self.pc), clause, self.path_no, kind)
+        if generalize:
+            ob.generalize = [g.t if isinstance(g, SV) else g for g in generalize if isinstance(g, SV) or z3.is_expr(g)]
         self.pending.append(ob)
         return ob
 
@@ -228,6 +231,23 @@ class Ctx:
 
     def discharge(self, ob, use_cvc5=True):
         t0 = time.time()
+        gen = getattr(ob, "generalize", None)
+        if gen:
+            # proof by generalisation: replace the named sub-terms (e.g. a 64-bit product both sides share) by fresh
+            # constants. Valid generalised formula => valid original (instantiate the constants); anything else falls
+            # through to the ordinary query on the ORIGINAL formula, so no verdict other than "proved" comes from here.
+            sub = [(g, z3.FreshConst(g.sort(), "gen")) for g in gen]
+            sg = z3.Solver()
+            sg.set("timeout", OBL_TIMEOUT_MS)
+            for c in ob.pc:
+                sg.add(z3.substitute(c, *sub))
+            sg.add(z3.Not(z3.substitute(ob.clause, *sub)))
+            if sg.check() == z3.unsat:
+                ob.status = "proved"
+                ob.backend = "z3"
+                ob.note = "proved after generalising %d sub-term(s)" % len(sub)
+                ob.secs = time.time() - t0
+                return ob.status
         s = z3.Solver()
         s.set("timeout", OBL_TIMEOUT_MS)
         for c in ob.pc:
